@@ -108,7 +108,9 @@ func (w *world) txn(allowInFlight bool) bool {
 }
 
 // crash at I/O prefix k, restart with the real start-up path, compare with the committed model
-func (w *world) crashAndCheck(onlyAfterLastCommit bool) {
+func (w *world) crashAndCheck(onlyAfterLastCommit bool) { w.crashAndCheckT(onlyAfterLastCommit, false) }
+
+func (w *world) crashAndCheckT(onlyAfterLastCommit bool, torn bool) {
 	n := vf.FsTraceLen()
 	last := w.commits[len(w.commits)-1]
 	lo := w.commits[0].end // crash points during the initial bootstrap / CREATE TABLE are outside this check (C10)
@@ -119,7 +121,15 @@ func (w *world) crashAndCheck(onlyAfterLastCommit bool) {
 	vf.Note("crash-at", k)
 	vf.Note("trace-len", n)
 	w.r.Sdb.ShutdownForTescase() // stops the old instance's threads and closes its files (no writes)
-	vf.FsCrash(k, 0)
+	tear := 0
+	if torn {
+		// the k-th write (a log write) reaches the disk only for its first `tear` bytes
+		vf.Assume(vf.FsTraceIsWrite(k, ".log"))
+		tear = vf.Int()
+		vf.Assume(tear >= 0 && tear <= vf.FsTraceWriteLen(k))
+		vf.Cover("c01.torn")
+	}
+	vf.FsCrash(k, tear)
 	// which committed states are acceptable at this crash point
 	var allowed []state
 	base := w.commits[0].st
@@ -130,7 +140,7 @@ func (w *world) crashAndCheck(onlyAfterLastCommit bool) {
 	}
 	allowed = append(allowed, base)
 	for _, c := range w.commits {
-		if c.start < k && k < c.end {
+		if (c.start < k || (torn && c.start == k)) && k < c.end {
 			allowed = append(allowed, c.st) // commit was in progress: all or nothing
 		}
 	}
@@ -172,15 +182,22 @@ func (w *world) crashAndCheck(onlyAfterLastCommit bool) {
 	vf.Assert(len(rows2) == len(got)+1, "new row is visible next to the recovered ones")
 }
 
-func history(ntxn int, onlyAfterLastCommit bool) {
+func history(ntxn int, onlyAfterLastCommit bool) { historyT(ntxn, onlyAfterLastCommit, false) }
+
+func historyT(ntxn int, onlyAfterLastCommit bool, torn bool) {
 	w := open(50)
 	for i := 0; i < ntxn; i++ {
 		if !w.txn(i == ntxn-1) {
 			break
 		}
 	}
-	w.crashAndCheck(onlyAfterLastCommit)
+	w.crashAndCheckT(onlyAfterLastCommit, torn)
 }
+
+// torn log tail: the last log write before the crash is cut at an arbitrary (symbolic) byte
+func VF_C01_Torn_T2() { historyT(2, true, true) }
+func VF_C02_Torn_T1() { historyT(1, false, true) }
+func VF_C02_Torn_T2() { historyT(2, false, true) }
 
 // C01: crash points after the last commit returned; C02: every crash point
 func VF_C01_T1() { history(1, true) }
